@@ -78,6 +78,11 @@ CLAIMED = {
    note="net/http trusted; E2 assumptions as for C07; the E2 findings are the ones also listed under C07.",
    technique="static analysis: typestate/dominance rules on request values, control-dependence rules, select-arm query, dependence on own representation id, must-lockset analysis (E2)",
    ref="DESIGN.md §3 C16"),
+ "C17": dict(
+   text="Static analysis of structural necessary conditions in the ingest receiver: atomic publication — the timeline MPD's final name is only the destination of os.Rename, and on every path to that Rename the temporary file was created, the document written without error and the file closed, in that order; monotone newest number — every store to latestSeqNr is dominated by comparisons giving stored >= new > old; a segment is counted for its sequence number only on the nil side of the track buffer's error; no store to the segment's sequence number can follow its use in the name of the file stored or deleted; the timeline generator, its counters and buffers are accessed by the channel goroutine only or under its mutex (E2); divisors in everything the channel goroutine reaches are proven non-zero for every upload (E3-A). Contiguity/completeness of the listed range, stored content and buffer bounds are not decided.",
+   note="os.Rename atomicity assumed; E2/E3 assumptions as for C19/C08.",
+   technique="static analysis: dominance/typestate rules on file operations, dominating-comparison rule on a monotone store, CFG ordering rule, must-lockset ownership, interval rule on divisors",
+   ref="DESIGN.md §3 C17"),
  "C18": dict(
    text="Static analysis (SSA control-flow walk + range/guard analysis) of two structural necessary conditions: every callback/read error is returned on all non-nil paths, and the box-walk cursor provably advances and cannot wrap. Decides those clauses for every input and read schedule; does not decide output equality.",
    note="Trusts go/types, go/ssa; VTA call graph for reachability; integer overflow only modelled where a rule says so.",
